@@ -50,12 +50,15 @@ def write_cfg(path, consts, fac="UStdFacR", module_consts=()):
         f.write("INIT Init\nNEXT Next\nCONSTANTS\n")
         for k, v in consts.items():
             f.write("  %s = %s\n" % (k, v))
-        f.write("  Fac <- %s\n" % fac)
+        if fac:
+            f.write("  Fac <- %s\n" % fac)
         for l in module_consts:
             f.write("  %s\n" % l)
         f.write("INVARIANT Done\nCHECK_DEADLOCK FALSE\n")
 
 
+PARSER_REPAIRED = {"StaleSkip": "FALSE", "ParenReusesSkip": "FALSE", "EatIgnoresSkip": "FALSE", "RelabelInsteadOfPop": "FALSE",
+                   "TokensAreResults": "FALSE"}
 DEFAULT_CONSTS = {"ZeroPowEarlyExit": "FALSE", "ZeroEntriesKept": "FALSE"}
 
 
@@ -69,7 +72,14 @@ def validate(chk, path, name, module="Trace_Lang", consts=None, fac="UStdFacR", 
     w = os.path.join(vlib.WORK, name)
     os.makedirs(w, exist_ok=True)
     cfg = os.path.join(w, "%s.cfg" % module)
-    write_cfg(cfg, dict(DEFAULT_CONSTS, **(consts or {})), fac=fac)
+    if module == "Trace_Parse":
+        write_cfg(cfg, dict(PARSER_REPAIRED, **(consts or {})), fac=None)
+    else:
+        write_cfg(cfg, dict(DEFAULT_CONSTS, **(consts or {})), fac=fac)
+    if len(recs) > chunk:      # balance the chunks over the parallel TLC processes
+        nchunks = -(-len(recs) // chunk)
+        nchunks = -(-nchunks // jobs) * jobs
+        chunk = -(-len(recs) // nchunks)
     chunks = [recs[i:i + chunk] for i in range(0, len(recs), chunk)]
     by_id = {r["id"]: r for r in recs}
 
@@ -169,10 +179,12 @@ def problems_text(m):
 
 def judge(chk, res, owns, what, key_prefix="", drift_other=True):
     """res: Result of validate().  owns(problem, record) -> True if that kind of mismatch on this
-    record contradicts the property's statement; anything else is DRIFT."""
+    record contradicts the property's statement; anything else is DRIFT.  The record carries all
+    problems of the same query as rec["_problems"]."""
     n = 0
     for m in res.mismatches:
-        rec = m["rec"] or {}
+        rec = dict(m["rec"] or {})
+        rec["_problems"] = m["problems"]
         mine = [p for p in m["problems"] if owns(p, rec)]
         other = [p for p in m["problems"] if not owns(p, rec)]
         if mine:
